@@ -21,6 +21,7 @@ package simrt
 import (
 	"fmt"
 	"math/rand/v2"
+	"os"
 	"runtime"
 	"sort"
 	"strconv"
@@ -377,6 +378,14 @@ func yield() {
 // only Config.SiteSample of the sites (chosen per run from Seed) are scheduling points in a run. The
 // check comes first so that an inactive site costs a few nanoseconds.
 func YieldAt(site uint32) {
+	if fnCov != nil {
+		fnCovMu.Lock()
+		fnCov[site]++
+		fnCovMu.Unlock()
+		if fnCovOnly {
+			return
+		}
+	}
 	s := Active()
 	if s == nil {
 		return
@@ -391,6 +400,36 @@ func YieldAt(site uint32) {
 		}
 	}
 	yield()
+}
+
+// Function-entry reach measurement (run.py coverage): with VERIF_FNCOV set every function-entry site counts
+// its hits, whether or not a simulation is active; VERIF_FNCOV=only additionally disables the yield (for
+// checks that do not normally schedule at function entries).
+var (
+	fnCov     map[uint32]uint32
+	fnCovOnly bool
+	fnCovMu   sync.Mutex
+)
+
+func init() {
+	if v := os.Getenv("VERIF_FNCOV"); v != "" {
+		fnCov = map[uint32]uint32{}
+		fnCovOnly = v == "only"
+	}
+}
+
+// FnCoverage returns a copy of the function-entry hit counters (nil when not measuring).
+func FnCoverage() map[uint32]uint32 {
+	if fnCov == nil {
+		return nil
+	}
+	fnCovMu.Lock()
+	defer fnCovMu.Unlock()
+	c := make(map[uint32]uint32, len(fnCov))
+	for k, v := range fnCov {
+		c[k] = v
+	}
+	return c
 }
 
 // Y yields and returns its argument: simrt.Y(ch) <- v, simrt.Y(wg).Wait(), simrt.Y(&x).Load().
